@@ -589,6 +589,78 @@ fn main() {
             }
             extra = json!({"rounds": 150, "copies_checked": checked});
         }
+        "big-cycle-late-signal" | "big-cycle-late-signal-cancelable" => {
+            // one collector cycle has to take in more than 8192 finish signals (three threads,
+            // nobody's queue full), and while it runs, between its two drain passes, the root of
+            // one more trace finishes: that signal is first seen in the second pass, is kept for
+            // the next cycle, and must survive whatever the collector does with its buffers after
+            // a burst
+            use std::sync::mpsc::sync_channel;
+            static ARMED: std::sync::atomic::AtomicBool = std::sync::atomic::AtomicBool::new(false);
+            let cancelable = sc.ends_with("cancelable");
+            let rep = Rep::default();
+            fastrace::set_reporter(rep.clone(), Config::default().cancelable(cancelable).report_interval(Duration::from_secs(3600)));
+            std::thread::sleep(Duration::from_millis(30));
+            let (at_tx, at_rx) = sync_channel::<()>(1);
+            let (go_tx, go_rx) = sync_channel::<()>(1);
+            let go_rx = Mutex::new(go_rx);
+            fastrace::verif::set_hook(Some(Arc::new(move |p: &fastrace::verif::Point| {
+                if let fastrace::verif::Point::PassBegin { pass: 2 } = p {
+                    if ARMED.swap(false, Ordering::SeqCst) {
+                        let _ = at_tx.send(());
+                        let _ = go_rx.lock().unwrap().recv_timeout(Duration::from_secs(20));
+                    }
+                }
+            })));
+            let mut rounds_ok = 0;
+            for round in 0..2u128 {
+                let hs: Vec<_> = (0..3u128)
+                    .map(|w| {
+                        std::thread::spawn(move || {
+                            for k in 0..3_000u128 {
+                                drop(Span::root("burst", SpanContext::new(TraceId(0x10_0000 + round * 0x1_0000 + w * 0x4000 + k), SpanId(1))));
+                            }
+                        })
+                    })
+                    .collect();
+                for h in hs {
+                    h.join().unwrap();
+                }
+                let victim = Span::root("victim", SpanContext::new(TraceId(0xf1c0 + round), SpanId(1)));
+                c();
+                drop(Span::enter_with_parent("victim-child", &victim));
+                ARMED.store(true, Ordering::SeqCst);
+                let cyc = std::thread::spawn(fastrace::verif::run_collector_cycle);
+                let parked = at_rx.recv_timeout(Duration::from_secs(20)).is_ok();
+                drop(victim);
+                c();
+                let _ = go_tx.send(());
+                cyc.join().unwrap();
+                if !parked {
+                    panic!("harness: the cycle had no second drain pass although 9000 finish signals were queued");
+                }
+                for _ in 0..3 {
+                    fastrace::verif::run_collector_cycle();
+                }
+                let recs = std::mem::take(&mut *rep.0.lock().unwrap());
+                let burst = recs.iter().filter(|r| r.name == "burst").count();
+                let mut names: Vec<&str> = recs.iter().filter(|r| r.trace_id.0 == 0xf1c0 + round).map(|r| &*r.name).collect();
+                names.sort();
+                if names != ["victim", "victim-child"] {
+                    panic!("round {}: a trace whose root finished between the two drain passes of a cycle that took in 9000 finish signals was delivered as {:?} after three more cycles", round, names);
+                }
+                if burst != 9_000 {
+                    panic!("round {}: {} of the 9000 traces of the burst were delivered (no queue was full)", round, burst);
+                }
+                rounds_ok += 1;
+            }
+            fastrace::verif::set_hook(None);
+            let st = fastrace::verif::collector_stats();
+            extra = json!({"rounds": rounds_ok, "finish_signals_in_the_big_cycle": 9_001, "active_collect_ids_afterwards": st.active_collect_ids.len()});
+            if !st.active_collect_ids.is_empty() {
+                panic!("{} traces are still active in the collector after everything finished and four cycles ran", st.active_collect_ids.len());
+            }
+        }
         "lone-late-send" => {
             // the background collector alone (no flush, no cycle driven by the harness): a thread's
             // last command is held up for a few report intervals right before it enters the queue
